@@ -160,8 +160,9 @@ def generate(rng, tier, run):
     root = os.path.join(SCRATCH, "r%d_%d" % (os.getpid(), run))
     case = {"props": props, "entries": [[n, base64.b64encode(d).decode()] for n, d in entries], "trailer": trailer,
             "size": len(img), "root": root, "items": items}
-    case["batches"] = [list(range(len(items)))]
-    case["plans"] = [batch_plan(case, case["batches"][0])]
+    B = 120
+    case["batches"] = [list(range(i, min(len(items), i + B))) for i in range(0, len(items), B)]
+    case["plans"] = [batch_plan(case, b) for b in case["batches"]]
     return case
 
 
@@ -212,7 +213,7 @@ def batch_plan(case, idxs):
         steps += item_steps(case, i)
     steps.append({"do": "fs", "op": "rm", "path": case["root"]})
     return {"prop": PROP, "steps": steps, "clock": {"per_instr_ns": 1000, "per_poll_ns": 100, "idle_jump": True},
-            "limits": {"max_instr": 3000000, "max_events": 600000, "watchdog_s": 40 if len(idxs) > 1 else 15}, "observe": {"visits": False, "slices": False}}
+            "limits": {"max_instr": 3000000, "max_events": 600000, "watchdog_s": 90 if len(idxs) > 1 else 20}, "observe": {"visits": False, "slices": False}}
 
 
 def cleanup_disk(case):
@@ -232,12 +233,15 @@ def expand(case, hs):
     import re
     c = copy.deepcopy(case)
     c["expanded"] = True
-    first = 0
-    h = hs[0]
-    if "crash" in h:
-        marks = re.findall(r"@step t-1 #\d+ mark", h["crash"].get("stderr", ""))
-        first = max(0, len(marks) - 1)
-    idxs = list(range(first, min(len(case["items"]), first + 25)))
+    idxs = []
+    for b, h in zip(case["batches"], hs):
+        if "crash" in h:
+            marks = re.findall(r"@step t-1 #\d+ mark", h["crash"].get("stderr", ""))
+            first = max(0, len(marks) - 1)
+            idxs += b[first:first + 6]
+        elif h.get("truncated"):
+            idxs += b[:6]
+    idxs = idxs[:40]
     c["batches"] = [[i] for i in idxs]
     c["plans"] = [batch_plan(case, [i]) for i in idxs]
     return c
